@@ -147,6 +147,20 @@ def run_tlc(module, cfg=None, files=None, workers=1, timeout=600, extra=None, he
     return r
 
 
+def run_apalache(module, init, inv, length, timeout=300):
+    """Run `apalache-mc check` on spec/<module>.tla in a scratch directory; returns (ok, text)."""
+    d = scratch("apa")
+    shutil.copy(os.path.join(SPEC, module + ".tla"), d)
+    cmd = ["apalache-mc", "check", "--init=" + init, "--inv=" + inv, "--length=%d" % length, module + ".tla"]
+    try:
+        p = subprocess.run(cmd, cwd=d, stdout=subprocess.PIPE, stderr=subprocess.STDOUT, text=True, timeout=timeout)
+    except (subprocess.TimeoutExpired, FileNotFoundError) as e:
+        shutil.rmtree(d, ignore_errors=True)
+        return None, str(e)
+    shutil.rmtree(d, ignore_errors=True)
+    return ("EXITCODE: OK" in p.stdout and "no error" in p.stdout), p.stdout[-1500:]
+
+
 # --------------------------------------------------------------------------- Go harness
 
 _built = {}
